@@ -30,7 +30,7 @@ Obj: 'obj' name=ID;
 User: 'user' name=ID ('ref' r=[Obj] | 'many' rs+=[Obj][',']) ';';
 """
 KINDS = ['syntax', 'unknown', 'notunique', 'unresolvable']
-WHERE = ['string', 'main', 'imported', 'main-with-import', 'imported-first-of-two']
+WHERE = ['string', 'main', 'imported', 'main-with-import', 'imported-first-of-two', 'string-global-repo-provider']
 FORMS = ['single', 'list1', 'list2', 'list3']
 GAPS = [' ', '\n', '\n\n  ', '\t ', ' \n\t']
 MARK = '@@'
@@ -54,6 +54,8 @@ def body(kind, form, gap, dup_here):
 def build(kind, where, form, gap):
     """{'main': text, 'lib.m': text} (or string model) and the offending file"""
     files = {}
+    if where == 'string-global-repo-provider':
+        where = 'string'
     if where == 'imported':
         files['lib.m'] = body(kind, form, gap, kind == 'notunique')
         files['main'] = 'import "lib.m"\nobj c\nuser m ref c ;'
@@ -100,6 +102,20 @@ def load(kind, where, form, gap):
     mm.register_scope_providers({'*.*': Prov()})
     tmpd = None
     try:
+        if where == 'string-global-repo-provider':
+            # a string model whose scope provider finds library files by a pattern: the model is
+            # registered in the repository under an invented name — its errors still name no file
+            tmpd = tempfile.mkdtemp(prefix='c28_')
+            files = dict(files, **{'zlib.m': 'obj zlibobj'})
+            with open(os.path.join(tmpd, 'zlib.m'), 'w') as f:
+                f.write(files['zlib.m'])
+            if kind != 'unresolvable':
+                mm.register_scope_providers({'*.*': P.PlainNameGlobalRepo(os.path.join(tmpd, '*.m'))})
+            try:
+                mm.model_from_str(files['main'])
+                return ('noerror', None, None)
+            except TextXError as e:
+                return ('err', e, {'filename': None, 'line': line, 'col': col})
         if where == 'string':
             try:
                 mm.model_from_str(files['main'])
